@@ -24,7 +24,7 @@ def one(name):
             return name, None, "patch does not apply: " + p.stdout.decode()[:200]
         det = {}
         for cid in IDS:
-            p = subprocess.run(["/verif/bin/crscheck", "-property", cid, "-repo", tmp], stdout=subprocess.PIPE, stderr=subprocess.STDOUT, env=ENV)
+            p = subprocess.run([os.environ.get("CRS_BIN", "/verif/bin/crscheck"), "-property", cid, "-repo", tmp], stdout=subprocess.PIPE, stderr=subprocess.STDOUT, env=ENV)
             if p.returncode == 1:
                 lines = [l for l in p.stdout.decode().splitlines() if "] " in l and " — " in l]
                 det[cid] = [l.split("] ", 1)[0].split("[")[-1] + ":" + l.split("] ", 1)[1].split(" — ")[0] for l in lines][:6]
